@@ -4,7 +4,9 @@ CONSTANTS
   MaxExtra = 3
   AttrModes <- ModesThorough
   VarNone = TRUE
+  ReqVersions <- ReqThorough
 INVARIANT Mirror
 INVARIANT DynAgrees
 INVARIANT TrimInv
+INVARIANT TransMirror
 CHECK_DEADLOCK FALSE
